@@ -3,11 +3,11 @@
 (* over a universe drawn from the real catalogue.  The state is an expression pair <<e1, e2>>: e2 is    *)
 (* obtained from e1 by one algebraic identity (Rewrite actions); invariants relate their normal forms.  *)
 EXTENDS Units, Catalogue
-CONSTANT Ids
+CONSTANTS Ids, Small0     \* Small0 = TRUE: reduced sets of magnitudes / prefixes (quick tier)
 Leaf == {[op |-> "unit", id |-> i] : i \in Ids}
 Exps == {<<-1, 1>>, <<2, 1>>, <<1, 2>>}
-Mags == {<<BP(4, 1, 1)>>, <<BP(6, -1, 1)>>, <<BP(7, 1, 1)>>, <<BP(4, 1, 2)>>}
-Prefs == {"kilo", "milli", "kibi"}
+Mags == IF Small0 THEN {<<BP(6, -1, 1)>>, <<BP(7, 1, 1)>>} ELSE {<<BP(4, 1, 1)>>, <<BP(6, -1, 1)>>, <<BP(7, 1, 1)>>, <<BP(4, 1, 2)>>}
+Prefs == IF Small0 THEN {"kilo"} ELSE {"kilo", "milli", "kibi"}
 D1 == Leaf \cup {[op |-> "pow", x |-> a, r |-> r] : a \in Leaf, r \in Exps}
            \cup {[op |-> "scale", x |-> a, m |-> m] : a \in Leaf, m \in Mags}
            \cup {[op |-> "prefix", x |-> a, p |-> p] : a \in Leaf, p \in Prefs}
